@@ -177,6 +177,16 @@ func runCmd(args []string) {
 				enc.Encode(mismatch{Pid: pid, Program: line, Step: i, Kind: "corr", Detail: "model produced no line for this step", Impl: r.String(), Tags: ptags})
 				break
 			}
+			if strings.HasPrefix(ms.m, "r=unknown-values") {
+				// the model cannot decide the result of this step (an arg-reduction over values it no longer
+				// knows): the real call has been made — its side effects on the operands are still observed by
+				// the later dumps — but its result is not compared and the result variable is dropped on both sides
+				if len(p.vars) > 0 {
+					p.vars[len(p.vars)-1] = nil
+				}
+				sum.Outcomes["model-undecided"]++
+				continue
+			}
 			sum.Compared++
 			dCorr := p.compareRec(r, ms.m, false)
 			dSpec := ""
